@@ -1,4 +1,5 @@
 import MtailVerif.Proofs.Lockset
+import MtailVerif.Proofs.Skeletons
 /-! # C11 — concurrent processing, export, reload and GC are race-free
 
     Partial by nature.  What is proved: for the access table regenerated from the Go source (every
@@ -70,5 +71,16 @@ theorem load_store_loses_an_increment : lostUpdate = 1 ∧ lostUpdate ≠ 0 + [1
 example : ∃ a ∈ table, ∃ b ∈ table, concurrent a b = true ∧ exclude a b = false := by
   refine ⟨⟨2, 1, .r, [(2, false), (0, false)]⟩, by decide, ⟨3, 1, .r, [(2, false), (0, false)]⟩, by decide,
     by decide, by decide⟩
+
+/-! ### regenerated control skeletons (written by lib/wire_skeletons.py) -/
+/-- Obligations over regenerated facts: the functions this property's model stands for have the
+    control skeleton the model was written against (`Proofs/Skeletons.lean`, one `rfl` per function
+    or clause; DESIGN.md §11.6a) -/
+theorem f_runtime_runtime_skeletons : Skeletons.F_runtime_runtimeShape := Skeletons.f_runtime_runtime_shape
+theorem f_metrics_store_skeletons : Skeletons.F_metrics_storeShape := Skeletons.f_metrics_store_shape
+theorem f_exporter_prometheus_skeletons : Skeletons.F_exporter_prometheusShape := Skeletons.f_exporter_prometheus_shape
+theorem f_metrics_metric_skeletons : Skeletons.F_metrics_metricShape := Skeletons.f_metrics_metric_shape
+theorem f_datum_int_skeletons : Skeletons.F_datum_intShape := Skeletons.f_datum_int_shape
+theorem f_exporter_export_skeletons : Skeletons.F_exporter_exportShape := Skeletons.f_exporter_export_shape
 
 end MtailVerif.C11
